@@ -94,6 +94,7 @@ fn check<C: Pv>(c: &Case) -> Report {
     let npo = NpoSel {
         recompose: c.prog.recompose_npo,
         debug_lookups: false,
+        poseidon2: None,
     };
     match C::prove_verify(&circuit, &traces, &pk, &npo) {
         Ok(()) => rep.class("outcome:proved+verified"),
